@@ -1177,5 +1177,11 @@ def run(prog, tier, seed):
     from ..report import adopt
     dep = adopt(T.results(T(c16.rule_hc7, prog), T(c16.rule_hc8, prog)), PROP,
                 'a stale memo entry is a wrong result of the operation')
+    from . import c18
+    pf = T(c18.parser_functions, prog, _n=2)
+    if pf[0] is not None:
+        dep += adopt(T.results(T(c18.rule_bp5, prog, pf[1], pf[0])), PROP,
+                     'a variable outside the ordering raises RuntimeError '
+                     'only through the ordering check of the constructor')
     return T.results(r1, r2, r3, r4, r5, r6) + dep, expl, assumptions, \
         T.extra()
